@@ -207,7 +207,7 @@ func (d *Doc) Case() Case {
 // keeps <head> and its <style> element undisplayed whatever the generated rules say (`*`,
 // `:first-child`, `:not(.c1)` ... match them), because the TEXT of the <style> element differs
 // between the two documents by construction and would otherwise be drawn.
-const GuardSheet = "head, head * { display: none !important }\n"
+const GuardSheet = "head:not(#x#x#x#x#x#x#x#x), head *:not(#x#x#x#x#x#x#x#x) { display: none !important }\n"
 
 func (d *Doc) CountNodes() int {
 	var f func(n *Node) int
